@@ -9,6 +9,12 @@ from ..core import RunResult, HarnessError, shash
 from ..facades import Facade, make_disk
 
 NATIVE_LIKE = ("native", "realos")
+
+
+def _tf(cfg):
+    """The facade as far as newline translation goes: the caller's newline="" (keyword
+    arguments are passed to open()) switches universal newlines off on the native path."""
+    return cfg["facade"] if cfg.get("newline") != "empty" else "as-stored"
 from ..models import (LoadError, RefSimfile, ref_encoding, ref_load, universal_newlines,
                       DEFAULT_ENCODINGS, dep_roundtrip_ok, gap_classes, ref_emit, serialisable)
 from ..simdisk import (SimDisk, SimKill, InvariantViolation, InjectedOSError, OPEN_W, OPEN_R,
@@ -99,6 +105,10 @@ def generate(prop, rng, run, tier):
     for p, b in others.items():
         if rng.random() < 0.6:
             files[p] = b.hex()
+    # neighbours whose names an implementation might use for scratch files
+    for suffix in (".tmp", ".bak", "~", ".new", ".old", ".swp", ".part"):
+        if rng.random() < 0.12:
+            files[inp + suffix] = ("neighbour " + suffix).encode().hex()
     r = rng.random()
     if r < 0.45:
         out = None
@@ -107,6 +117,8 @@ def generate(prop, rng, run, tier):
     elif r < 0.85:
         out = d + "/out" + ext
         files[out] = b"#TITLE:old output;\n".hex()
+        if rng.random() < 0.3:
+            files[out + rng.choice([".tmp", ".bak", "~", ".new"])] = b"neighbour of output".hex()
     elif r < 0.93:
         out = inp                      # output name equal to the input name
     else:
@@ -115,7 +127,7 @@ def generate(prop, rng, run, tier):
     if r < 0.4:
         bak = None
     elif r < 0.7:
-        bak = inp + ".bak"
+        bak = inp + rng.choice([".bak", ".bak", ".tmp", ".old", "~"])
     elif r < 0.85:
         bak = d + "/backup" + ext + ".old"
         files[bak] = b"stale backup".hex()
@@ -150,6 +162,10 @@ def generate(prop, rng, run, tier):
         cfg["short_writes"] = rng.randint(1, 10 ** 6)
     if rng.random() < 0.3:
         cfg["spelling"] = rng.choice(["dslash", "dot", "rel"])
+    if rng.random() < 0.3:
+        cfg["raw_readers"] = True     # binary read streams of the PyFilesystem are raw (short reads)
+    if rng.random() < 0.15:
+        cfg["newline"] = "empty"      # passed to open(): line breaks as stored, also on the native path
     if prop == "C06" and text.isascii() and rng.random() < 0.5:
         # keyword arguments are passed to open(): a caller-chosen error handler
         cfg["errors"] = rng.choice(["replace", "ignore", "strict", "backslashreplace"])
@@ -235,7 +251,8 @@ def run_once(sc, fault=None, body_raise=None, spoil=None, noop_on=None, hooks=No
     {"what": "unserializable-int" | ...} appended to the edit script."""
     lib = ops.lib()
     cfg = sc["config"]
-    disk_cfg = {"short_reads": cfg.get("short_reads"), "short_writes": cfg.get("short_writes")}
+    disk_cfg = {"short_reads": cfg.get("short_reads"), "short_writes": cfg.get("short_writes"),
+                "raw_readers": cfg.get("raw_readers")}
     disk = make_disk(sc["world"], disk_cfg, faults or ([fault] if fault else None), cfg["facade"])
     o = Outcome()
     o.disk = disk
@@ -259,6 +276,8 @@ def run_once(sc, fault=None, body_raise=None, spoil=None, noop_on=None, hooks=No
         kw["buffering"] = cfg["buffering"]
     if cfg.get("errors"):
         kw["errors"] = cfg["errors"]
+    if cfg.get("newline") == "empty":
+        kw["newline"] = ""
     kw["strict"] = bool(cfg.get("strict", True))
     if hooks:
         disk.on_open_w = hooks.get("on_open_w")
@@ -371,6 +390,11 @@ def _expect_entry(sc, data, facade):
     text = data.decode(enc)
     if facade in NATIVE_LIKE:
         text = universal_newlines(text)
+    tail = len(text) - len(text.rstrip("\\"))
+    if tail % 2 == 1:
+        # a text ending in an unpaired backslash is excluded (msdparser fails an internal
+        # assertion on it: known finding under C03)
+        return enc, None, LoadError("ExcludedTrailingBackslash")
     kind = models.ref_detect(cfg["input"], text, True)   # detection ignores nothing here: see C03
     if isinstance(kind, LoadError):
         return enc, None, kind
@@ -470,12 +494,17 @@ def check_c05(sc, res):
         dfiles = dict(sc["world"]["files"])
         dfiles[cfg["input"]] = cfg["decoy"]
         dsc["world"] = {"dirs": sc["world"]["dirs"], "files": dfiles}
-        denc, dkind, dexpect = _expect_entry(dsc, ddata, facade)
-        _check_open(dsc, res, ddata, denc, dkind, dexpect)
+        denc, dkind, dexpect = _expect_entry(dsc, ddata, _tf(cfg))
+        if not (isinstance(dexpect, LoadError) and dexpect.exc == "ExcludedTrailingBackslash"):
+            _check_open(dsc, res, ddata, denc, dkind, dexpect)
         res.stats["probe:decoy-content-opened-first"] += 1
         if res.violations:
             return
+    facade = _tf(cfg)
     enc, kind, expect = _expect_entry(sc, data, facade)
+    if isinstance(expect, LoadError) and expect.exc == "ExcludedTrailingBackslash":
+        res.stats["outside-domain:trailing-unpaired-backslash"] += 1
+        return
     # --- clause 1: open_with_detected_encoding / open(encoding=)
     _check_open(sc, res, data, enc, kind, expect)
     if res.violations:
@@ -645,6 +674,8 @@ def _check_open(sc, res, data, enc, kind, expect):
     kw = {"strict": bool(cfg.get("strict", True))}
     if cfg.get("try_encodings") is not None:
         kw["try_encodings"] = list(cfg["try_encodings"])
+    nlkw = {"newline": ""} if cfg.get("newline") == "empty" else {}
+    kw.update(nlkw)
     before = disk.snapshot()
     with Facade(cfg["facade"], disk) as fa:
         kw.update(fa.kw)
@@ -670,7 +701,7 @@ def _check_open(sc, res, data, enc, kind, expect):
             else:
                 gp = ops.real_plain(sf, lib)
                 if gp != expect.plain():
-                    alt = ref_load(_decoded(data, enc, cfg["facade"]), kind,
+                    alt = ref_load(_decoded(data, enc, _tf(cfg)), kind,
                                    bool(cfg.get("strict", True)), "")
                     if gp != alt.plain():
                         res.violate(P, "open-loaded-simfile-differs", enc=enc, got=gp,
@@ -678,17 +709,20 @@ def _check_open(sc, res, data, enc, kind, expect):
         ee = cfg.get("explicit_encoding")
         if ee:
             try:
-                sf = lib.simfile.open(fa.p(cfg["input"]), strict=kw["strict"], encoding=ee, **fa.kw)
+                sf = lib.simfile.open(fa.p(cfg["input"]), strict=kw["strict"], encoding=ee,
+                                      **dict(fa.kw, **nlkw))
                 err = None
             except Exception as e:
                 sf, err = None, e
             res.evaluations += 1
             res.stats["probe:explicit-encoding"] += 1
             try:
-                text = _decoded(data, ee, cfg["facade"])
+                text = _decoded(data, ee, _tf(cfg))
             except UnicodeDecodeError:
                 text = None
-            if text is None:
+            if text is not None and (len(text) - len(text.rstrip("\\"))) % 2 == 1:
+                pass      # excluded: ends in an unpaired backslash under this encoding
+            elif text is None:
                 if not isinstance(err, UnicodeDecodeError):
                     res.violate(P, "explicit-encoding-should-fail", encoding=ee, escaped=repr(err))
             else:
@@ -737,11 +771,11 @@ def check_c06(sc, res):
     if not base.entered:
         res.stats["base-not-entered"] += 1
         return
-    enc, kind, expect = _expect_entry(sc, data, facade)
+    enc, kind, expect = _expect_entry(sc, data, _tf(cfg))
     if enc is None or isinstance(expect, LoadError):
         return
     model_entry = models.simfile_from_plain(base.entry_plain)
-    entry_ok, _ = _in_domain(model_entry, enc, facade)
+    entry_ok, _ = _in_domain(model_entry, enc, _tf(cfg))
     base_ok = base.escaped is None
     out_path = norm(out) if out else inp
     bak_path = norm(bak) if bak else None
